@@ -988,6 +988,7 @@ class Report:
         self.notes = []
         self.extra = {}
         self.explanation = ""
+        self.is_control = False
 
     def ok(self, rule, function, instance, detail=None, sample=False):
         self.obligations += 1
@@ -1017,7 +1018,7 @@ class Report:
 
     def floor(self, what, n, floor):
         self.extra.setdefault("floors", {})[what] = {"seen": n, "floor": floor}
-        if n < floor:
+        if n < floor and not self.is_control:
             raise CheckBroken("floor not met: %s: saw %d, expected >= %d (a rule matching too few sites must not pass vacuously)" % (what, n, floor))
 
     def assume(self, *a):
@@ -1065,7 +1066,7 @@ def finish(rep, cfgs=("default",)):
             continue
         printed.add(v["key"])
         print("KNOWN-FINDING: property=%s %s -- %s" % (rep.prop, v["key"], known[v["key"]].get("what_fails", v["what"])))
-    absent = [k for k in known if k not in printed]
+    absent = [k for k in known if k not in printed and known[k].get("config", "default") in cfgs]
     for k in absent:
         print("note: known finding no longer observed (repaired or code changed): %s" % k)
     n = 0
